@@ -141,7 +141,9 @@ func (d D) textScaled(base func() string) (string, string, *Scale) {
 				case 0:
 					return "", "many-distinct-waits", &Scale{Prefix: "prc[a] : 1 = ", Open: "wait x#; ", Suffix: "close self", Count: m, Numbered: true}
 				case 1:
-					return "", "many-distinct-waits-two-providers", &Scale{Prefix: "prc[a, b] : 1 = ", Open: "wait x#; ", Suffix: "close self", Count: m, Numbered: true}
+					// (this shape is the known finding N17, cubic in time: kept small enough that the
+					// scaling experiment at 4n stays within seconds)
+					return "", "many-distinct-waits-two-providers", &Scale{Prefix: "prc[a, b] : 1 = ", Open: "wait x#; ", Suffix: "close self", Count: 1 + m%400, Numbered: true}
 				case 2:
 					return "", "many-processes", &Scale{Open: "prc[x#] : 1 = close self\n", Count: m, Numbered: true}
 				case 3:
